@@ -1,1 +1,3 @@
-From V Require Import lib.Verdict C18.Model.
+(* C18 proofs: see ProofsArith (rotateTime), ProofsMachine (single steps), ProofsInv (invariants over
+   all action sequences). *)
+From V Require Export C18.ProofsArith C18.ProofsMachine C18.ProofsInv.
